@@ -43,7 +43,7 @@ static SPECS: &[PropertySpec] = &[
         id: "C01",
         scenario: props::c01::scenario,
         level: "exploration",
-        rule: "plans drawn from a seeded tape: framing x payload class x chunking x chunk-size spelling x trailing garbage x segmentation (uniform, 1-byte drip, targeted cuts inside CRLF/size line/head-body boundary) x caller read schedule x EINTR/coalescing; distinct = distinct plan-shape string (framing, size class, chunk-count class, >64KiB chunk, segmentation class, read class, garbage, eintr, coalesce); non-trivial = more than one delivery segment or a transport fault armed",
+        rule: "plans drawn from a seeded tape: framing x payload class x chunking x chunk-size spelling x trailing garbage x segmentation (uniform, 1-byte drip, targeted cuts inside CRLF/size line/head-body boundary) x caller read schedule (read sizes, or one of the helpers bytes / write_to / text / text_utf8 / json / json_utf8, or text_reader with a size schedule) x EINTR/coalescing x {plain connection, TLS session (one plan in eight; both back ends)}; distinct = distinct plan-shape string (framing, size class, chunk-count class, >64KiB chunk, segmentation class, read class, garbage, eintr, coalesce); non-trivial = more than one delivery segment or a transport fault armed",
         quick_runs: 30000,
         matrix_cells: 0,
         thorough_runs: 50_000_000,
@@ -259,7 +259,7 @@ static SPECS: &[PropertySpec] = &[
         id: "C19",
         scenario: props::c19::scenario,
         level: "exploration",
-        rule: "uncompressed C01 plans whose peer goes silent forever (connection open) after a drawn prefix: after the blank line, after a complete chunk, inside a chunk, at the frame end, uniform; prefix delivered under a drawn segmentation with segments spread over simulated time; caller reads with buffers 1 B .. 1 MiB; read timeout 1 h so any wrong wait is visible as simulated time; distinct = plan-shape string; all runs non-trivial (stall fault)",
+        rule: "reads through Response::read, text_reader() or write_to() (timestamping writer), over a plain connection or inside a TLS session (one plan in four; both back ends); uncompressed C01 plans whose peer goes silent forever (connection open) after a drawn prefix: after the blank line, after a complete chunk, inside a chunk, at the frame end, uniform; prefix delivered under a drawn segmentation with segments spread over simulated time; caller reads with buffers 1 B .. 1 MiB; read timeout 1 h so any wrong wait is visible as simulated time; distinct = plan-shape string; all runs non-trivial (stall fault)",
         quick_runs: 30000,
         matrix_cells: 0,
         thorough_runs: 50_000_000,
